@@ -327,6 +327,9 @@ SPECS["C16"] = ("""property C16: reopen and rebuild preserve everything observab
   ("C16_reopen_identity_bytes",
    "forall chunk m lg E, R m lg E -> es_open chunk (file m) = m",
    "es_open_id", "byte level (LogBytes.v): EventStore::new on the file of any store in the refinement relation R (marker >= 8, remembered length = file length) changes no byte and re-derives the same remembered length, whatever CHUNK is"),
+  ("C16_rebuild_bytes_refine",
+   "forall chunk names ops s' ops2, 8 <= chunk -> chunk mod 8 = 0 ->\n    Forall wfe (ops_events ops) -> Forall wfe (ops_events ops2) ->\n    rebuild (c_run ops (db_init names)) = Ok s' ->\n    exists es, Forall wfe es /\\ (log s', log_end s') = appends [] HEADER es /\\\n      (chunk + total_size chunk es + total_size chunk (ops_events ops2) < B64 ->\n       let s2 := c_run ops2 s' in\n       exists m, bytes_of_log chunk (log s2) = Some m /\\ Rdb m s2\n         /\\ (forall off e, get_event_by_offset s2 off = Ok e -> es_get m off = Ok (enc_event e))\n         /\\ es_end m = log_end s2)",
+   "rebuild_bytes_refine", "byte level: the event map a rebuild writes (after ANY history) is a sequence of appends of well-formed events from the header on, so the file the byte-level model computes for it exists, refines the rebuilt store, and keeps refining it through every history that continues with the rebuilt store (growth included): this is the file the per-run check compares with the real event.map after rebuild"),
   ("C16_rebuild_backup_partial",
    "forall s s', rebuild s = Ok s' -> bak s' = Some (log s, committed s) /\\ t_extra (committed s') = t_extra (committed s)",
    "rebuild_leaves_backup", ""),
